@@ -207,7 +207,7 @@ func (c *labelCtx) directLabel(lin *kit.LinEval, f *ssa.Function, mu *ssa.MapUpd
 		return
 	}
 	// (c) ProcessHeader: label from the parent lookup
-	if f.Name() == "ProcessHeader" {
+	if fname(f) == "ProcessHeader" {
 		var find *ssa.Call
 		for _, cc := range kit.CallsTo(f, H+".Branches.Find") {
 			call := cc.(*ssa.Call)
@@ -222,12 +222,12 @@ func (c *labelCtx) directLabel(lin *kit.LinEval, f *ssa.Function, mu *ssa.MapUpd
 		}
 	}
 	// (d) counter over decoded records (loadHistoricalHashHeights): handled by its own rule
-	if f.Name() == "loadHistoricalHashHeights" {
+	if fname(f) == "loadHistoricalHashHeights" {
 		c.historical(lin, f, mu, key)
 		return
 	}
 	// (e) constant genesis label
-	if kc, ok := label.IsConst(); ok && kc == 0 && f.Name() == "NewRepository" {
+	if kc, ok := label.IsConst(); ok && kc == 0 && fname(f) == "NewRepository" {
 		c.r.OKTrivial(c.rule, key, pos, "genesis hash labelled 0")
 		return
 	}
